@@ -241,8 +241,9 @@ def p_ptrformula_1(t):
 def p_ptrformula_2(t):
     '''ptrformula : PTRSIZE opt_seg_colon formula'''
     t[0] = t[3]
-    if t[2][x86_afs.segm] != 3:
-        # We don't mention the DS segment, which is implicit
+    if t[2][x86_afs.segm] != 3 or 4 in t[3] or 5 in t[3]:
+        # We don't mention the DS segment, which is implicit - unless esp or ebp
+        # takes part in the address: SS would be the default then
         t[0].update(t[2])
     t[0].update(t[1])
 
